@@ -693,6 +693,8 @@ funcgoto(struct func *f, char *name)
 		g = xmalloc(sizeof(*g));
 		g->label = mkblock(name);
 		g->defined = false;
+		g->vm = NULL;
+		g->uses = NULL;
 		*entry = g;
 	}
 
